@@ -805,12 +805,31 @@ func (ex *Exec) evalCall(st *State, call *ast.CallExpr) Val {
 		}
 	}
 	if ex.isLoggingChain(call) {
-		// logger calls: arguments are still evaluated for their obligations, the call has no modelled effect
-		for _, a := range call.Args {
-			func() {
-				defer func() { recover() }()
-				ex.evalExpr(st, a)
-			}()
+		// logger calls: the arguments of every call in the chain are still evaluated for their obligations
+		// (bounds, nil dereference); the calls themselves have no modelled effect
+		var cur ast.Expr = call
+		for cur != nil {
+			c, ok := cur.(*ast.CallExpr)
+			if !ok {
+				break
+			}
+			for _, a := range c.Args {
+				func() {
+					defer func() {
+						if r := recover(); r != nil {
+							if _, isAbort := r.(abortPath); isAbort {
+								panic(r)
+							}
+						}
+					}()
+					ex.evalExpr(st, a)
+				}()
+			}
+			sel, ok := c.Fun.(*ast.SelectorExpr)
+			if !ok {
+				break
+			}
+			cur = sel.X
 		}
 		return &ObjV{K: &Kind{K: "obj", Name: "logger"}, ID: Zero, Ghost: map[string]Val{}}
 	}
